@@ -94,6 +94,7 @@ def random_behaviours(seed, nruns, nops, first_run=0, dumps=True, offer_bias=Fal
                     op["offers"] = None
                 ops.append(op)
                 if h in cn["ann"] and cn["ann"][h] != pid:
+                    op["second_pid"] = True
                     conns.remove(cn)      # refused: the tracker closes the connection
                 else:
                     if event == "stopped":
